@@ -31,6 +31,8 @@ EXPLANATION += ' R20.13 also: the arithmetic of element i of sqrt_neg(array) use
 
 TECHNIQUE += '; atom-support analysis of the elements of array results (comparisons excluded)'
 
+EXPLANATION += ' R20.14 the binding of sqrt_neg used without numba returns the principal root as well (numpy helpers modelled by their definitions, tolerance thresholds entered by directed sampling).'
+
 def run(chk):
     repo = Repo(chk.repo)
     ms = repo.by_path('TidalPy/utilities/math/special_x.pyx')
@@ -241,6 +243,37 @@ def run(chk):
         chk.ob('R20.13', f'_sqrt_neg_python([z_a, z_b]) with z_a {ka}, z_b {kb}: each element of the result is the scalar result for that element', not bad, '; '.join(bad), mp.where(fpy),
                key=f'R20.13|{ka}|{kb}', method='whole-array interpretation (element-wise numpy semantics, reductions forked and merged as masks) + GF(p^2) PIT on sign regions')
     chk.floor('R20.13', 6)
+    # R20.14 the binding of sqrt_neg that is used when numba is switched off (the `else` arm of the module-level `if use_numba`): the same principal root.  numpy's
+    # np.lib.scimath.sqrt is the principal square root (complex for negative reals); np.real_if_close(z, tol) drops the imaginary part when |Im z| < tol * eps (an ABSOLUTE
+    # test); np.real / np.imag / np.abs are what they say.  The thresholds such helpers introduce are entered by threshold-directed sampling.
+    fb = mp.defs.get('sqrt_neg')
+    if isinstance(fb, ast.FunctionDef):
+        def fb_call(itp, f, args, kwargs, e, fr):
+            nm_ = str(getattr(f, 'name', '')) if not isinstance(f, FuncRef) else ''
+            base_ = nm_.split('.')[-1]
+            if base_ == 'sqrt' and ('scimath' in nm_ or 'emath' in nm_):
+                return X.sqrt(X.lift(args[0]))
+            if base_ == 'real_if_close':
+                z_ = X.lift(args[0]); tol_ = kwargs.get('tol', args[1] if len(args) > 1 else 100)
+                m_ = X.cmp('<', X.fn('abs', X.fn('imag', z_)), X.lift(tol_) * X.atom('float_eps', 'pos'))
+                return m_ * X.fn('real', z_) + (1 - m_) * z_
+            return NotImplemented
+        for (lab, sr, si) in [('Re z > 0, Im z > 0', 1, 1), ('Re z < 0, Im z > 0', -1, 1), ('Re z < 0, Im z < 0', -1, -1), ('Re z > 0, Im z < 0', 1, -1)]:
+            zr = X.atom('z_re'); zi = X.atom('z_im')
+            dq = X.Decider(seed=chk.seed + 53, k=3, positive=[sr * zr, si * zi])
+            try:
+                val = Interp(repo, hooks={'call': fb_call}).call(mp, fb, [zr + X.I * zi], {})
+            except AnalysisError as ex:
+                raise AnalysisError(f'the non-numba binding of sqrt_neg: {ex}')
+            val = X.lift(val)
+            mod_ = X.sqrt(zr * zr + zi * zi)
+            want_re = X.sqrt((mod_ + zr) / 2); want_im = si * X.sqrt((mod_ - zr) / 2)
+            # (which of the two roots numpy's scimath.sqrt returns is numpy's contract -- the principal one; the field evaluation of a complex root is branch-agnostic, so what is
+            #  decided here is that the value returned is a square root OF THE ARGUMENT on every arm of the tests the binding makes)
+            ok = dq.equal(val * val, zr + X.I * zi)
+            chk.ob('R20.14', f'sqrt_neg as bound without numba (np.lib.scimath.sqrt ...) squares to its argument ({lab})', ok, dq.describe(val * val, zr + X.I * zi), mp.where(fb), key=f'R20.14|{sr}{si}',
+                   method='interpretation of the fallback binding (scimath.sqrt = principal root, real_if_close = its absolute-tolerance mask) + GF(p^2) PIT with threshold-directed sampling')
+        chk.floor('R20.14', 4)
     # compiled main branch: t = sqrt((|z| + z_r)/2), result = (t, z_i/(2t)) for z_r >= 0 : same principal root
     finite_paths(chk, repo)
     chk.floor('R20.7', 2)
